@@ -3,6 +3,8 @@
 package zzverif
 
 import (
+	"math/big"
+
 	didtypes "github.com/SaoNetwork/sao/x/did/types"
 	markettypes "github.com/SaoNetwork/sao/x/market/types"
 	modeltypes "github.com/SaoNetwork/sao/x/model/types"
@@ -78,3 +80,5 @@ func declareInvariants() {
 	sym.DeclareInv(&didtypes.PaymentAddress{}, InvPaymentAddress)
 	sym.DeclareInv(&didtypes.DidBalances{}, InvDidBalances)
 }
+
+func newInt(b *big.Int) sdk.Int { return sdk.NewIntFromBigInt(b) }
